@@ -642,7 +642,7 @@ def check(tier: str) -> Report:
     return rep
 
 
-def check_bc_data_index(rep: Report, ix, rule: str) -> None:
+def check_bc_data_index(rep: Report, ix, rule: str, already_bad: frozenset = frozenset()) -> None:
     """boundary data may differ from face cell to face cell (inhomogeneous values, expressions of the transverse
     coordinates): `get_sparse_matrix_data(idx)` selects the data of the face cell `idx`.  In every assembler each such
     call passes a tuple in which exactly one entry is the virtual index of the boundary (-1 or the extent) and every
@@ -698,9 +698,17 @@ def check_bc_data_index(rep: Report, ix, rule: str) -> None:
                             line=x.lineno,
                         )
 
-        for st in fi.node.body:
-            visit_stmt(st, [])
-    rep.floor("get_sparse_matrix_data call sites in the assemblers", n_calls, 12)
+        try:
+            for st in fi.node.body:
+                visit_stmt(st, [])
+        except AnalysisError as e:
+            # an assembler whose rows are already in violation may use idioms this finer rule does not know: a note of
+            # that violation, not a second verdict
+            if (rel, fname) not in already_bad:
+                raise
+            rep.note(f"bc-data-index skipped for an assembler already in violation: {str(e)[:200]}")
+    if not already_bad:
+        rep.floor("get_sparse_matrix_data call sites in the assemblers", n_calls, 12)
 
 
 def check_matrix_rows(rep: Report, ix, rule_mismatch: str = "C18.matrix-vs-stencil", rule_overwrite: str | None = "C18.overwrite-after-accumulate") -> None:
@@ -776,7 +784,7 @@ def check_matrix_rows(rep: Report, ix, rule_mismatch: str = "C18.matrix-vs-stenc
         if len(rep.samples) < 8 and res["samples"]:
             rep.sample({"row": tag, "assembler": f"{rel}::{fname}", "extracted": res["samples"][0]})
     rep.floor("matrix rows compared", n_rows, 500)
-    check_bc_data_index(rep, ix, rule_mismatch)
+    check_bc_data_index(rep, ix, rule_mismatch, frozenset((r["job"][0], r["job"][1]) for r in results if r.get("mismatch")))
 
 
 def _check_errors_propagate(rep: Report, ix) -> None:
